@@ -11,6 +11,7 @@ import (
 
 	"github.com/postalsys/muti-metroo/internal/config"
 	"github.com/postalsys/muti-metroo/internal/identity"
+	"github.com/postalsys/muti-metroo/internal/peer"
 	"github.com/postalsys/muti-metroo/internal/protocol"
 	"github.com/postalsys/muti-metroo/internal/routing"
 )
@@ -73,4 +74,49 @@ func TestZZVFloodHopLimitWiring(t *testing.T) {
 		os.RemoveAll(dir)
 	}
 	zzvEmit("summary", map[string]any{"limits": limits, "default_maxhops": config.Default().Routing.MaxHops})
+}
+
+// C12/C14: after a peer is lost and comes back within the seen-cache lifetime, the table replay it sends (which
+// carries the origins' sequence numbers) must restore the routes that Agent.handlePeerDisconnect removed.
+func TestZZVFloodReconnectResync(t *testing.T) {
+	dir, err := os.MkdirTemp("", "zzv-agent")
+	if err != nil {
+		t.Fatal(err)
+	}
+	defer os.RemoveAll(dir)
+	cfg := config.Default()
+	cfg.Agent.DataDir = dir
+	a, err := New(cfg)
+	if err != nil {
+		t.Fatalf("zzv: agent.New: %v", err)
+	}
+	defer a.flooder.Stop()
+	peerID, _ := identity.NewAgentID()
+	origin, _ := identity.NewAgentID()
+	network := routing.MustParseCIDR("10.98.0.0/16")
+	adv := &protocol.RouteAdvertise{
+		OriginAgent: origin, Sequence: 1,
+		Routes: []protocol.Route{
+			{AddressFamily: protocol.AddrFamilyIPv4, PrefixLength: 16, Prefix: []byte{10, 98, 0, 0}, Metric: 1},
+			{AddressFamily: protocol.AddrFamilyAgent, Prefix: protocol.EncodeAgentPrefix(origin), Metric: 1},
+		},
+		EncPath: &protocol.EncryptedData{Data: protocol.EncodePath([]identity.AgentID{peerID, origin})},
+		SeenBy:  []identity.AgentID{origin, peerID},
+	}
+	deliver := func() bool {
+		dec, err := protocol.DecodeRouteAdvertise(adv.Encode())
+		if err != nil {
+			t.Fatalf("zzv: %v", err)
+		}
+		return a.flooder.HandleRouteAdvertise(peerID, dec.OriginAgent, dec.OriginDisplayName, dec.Sequence, dec.Routes, dec.EncPath, dec.SeenBy)
+	}
+	has := func() bool { return a.routeMgr.Table().HasRoute(network, origin) && a.routeMgr.LookupAgent(origin) != nil }
+	first := deliver()
+	learned := has()
+	a.handlePeerDisconnect(&peer.Connection{RemoteID: peerID}, nil)
+	removed := !has()
+	// the peer is back: its SendFullTable replays the origin's announcement under the origin's sequence (seen-by = the peer)
+	adv.SeenBy = []identity.AgentID{peerID}
+	again := deliver()
+	zzvEmit("resync", map[string]any{"first_new": first, "learned": learned, "removed_on_disconnect": removed, "replay_new": again, "restored": has()})
 }
